@@ -31,7 +31,7 @@ ASSUMPTIONS = [
     'a calculation that stays a calculation may be partially simplified in any sound way; a calculation that does not depend on its '
     'free symbols may be emitted as a number',
     'an error for a well-typed tree counts as not emitting the calculation',
-    'clamp() whose lower bound exceeds its upper bound is not asserted (css-values says the lower bound wins, dart-sass returns the upper bound when the value exceeds both)',
+    'clamp() whose value exceeds a lower bound that exceeds the upper bound is not asserted (css-values says the lower bound wins, dart-sass returns the upper bound)',
     'numerals inside an emitted calculation are taken to be rounded to 10 decimals: the comparison allows the propagated rounding error',
 ]
 
@@ -229,8 +229,10 @@ def evaluate(t, asg, eps=0.0):
             return max(vals), mag, err
         if len(vals) != 3:
             raise Skip('clamp arity')
-        if vals[0] > vals[2]:
-            raise Skip('clamp with min > max')        # css-values and dart-sass give different answers; not asserted
+        if vals[0] > vals[2] and vals[1] > vals[0]:
+            # css-values: the lower bound wins; dart-sass: value <= min -> min, value <= max -> value, else max.  The two differ
+            # exactly when the value exceeds a lower bound that exceeds the upper bound: not asserted
+            raise Skip('clamp with value > min > max')
         return max(vals[0], min(vals[1], vals[2])), mag, err
     (a, ma, ea), (b, mb, eb) = evaluate(t[1], asg, eps), evaluate(t[2], asg, eps)
     if k == '+':
@@ -449,7 +451,7 @@ def strip(t):
 def node_kind(t):
     if is_leaf(t):
         return 'operand'
-    return {'+': 'sum', '-': 'sum', '*': 'mul', '/': 'div', 'min': 'fn', 'max': 'fn', 'clamp': 'fn', 'paren': 'paren', 'calc': 'paren'}[t[0]]
+    return {'+': 'sum', '-': 'sum', '*': 'mul', '/': 'div', 'min': 'fn', 'max': 'fn', 'clamp': 'fn', 'paren': 'paren', 'calc': 'calc'}[t[0]]
 
 
 def ident_context(t, parent='top'):
@@ -460,7 +462,7 @@ def ident_context(t, parent='top'):
         return None
     k = node_kind(t)
     for c in children(t):
-        r = ident_context(c, parent if k == 'paren' else k)
+        r = ident_context(c, parent if k in ('paren', 'calc') else k)
         if r:
             return r
     return None
@@ -479,18 +481,19 @@ def family(t):
             return 'fn-with-unknown-unit-operand'
         if any(node_kind(strip(x)) in ('sum', 'mul', 'div') for x in args):
             return 'fn-with-operation-argument'
-        if any(node_kind(x) == 'paren' for x in args):
+        if any(node_kind(x) in ('paren', 'calc') for x in args):
             return 'fn-with-parenthesized-operand'
         if any(node_kind(x) == 'fn' for x in args):
             return 'fn-with-fn-argument'
         return 'fn-of-plain-operands'
-    if k == 'paren':
+    if k in ('paren', 'calc'):
         n, x = 0, t
         while x[0] in ('paren', 'calc'):
             n, x = n + 1, x[1]
         # (the top-level calc( of the rendering is one more pair of parentheses)
         return 'nested-parentheses' if n >= 2 else 'parenthesized-' + node_kind(x)
-    parts = [node_kind(strip(t[1])), node_kind(strip(t[2]))]          # left, right: which side it is matters
+    # left, right: which side it is matters; an operand wrapped in calc() or in doubled parentheses is its own kind
+    parts = [node_kind(t[1]), node_kind(t[2])]
     return '%s(%s)' % (k, ','.join(parts))
 
 
